@@ -70,6 +70,18 @@ func (p *pp) startUnsafeOverride() restorer {
 	return restorer{p, prevMode, prevOverride}
 }
 
+// setInitialMode selects the output mode for the parts of the output
+// that do not come from an argument (format string, separators).
+func (p *pp) setInitialMode() {
+	if p.override == overrideUnsafe {
+		// This is a nested printer (SafePrinter.Print/Printf) running
+		// under Unsafe(): everything it prints is unsafe.
+		p.buf.SetMode(b.UnsafeEscaped)
+	} else {
+		p.buf.SetMode(b.SafeEscaped)
+	}
+}
+
 type restorer struct {
 	p            *pp
 	prevMode     b.OutputMode
